@@ -45,6 +45,12 @@ static size_t n;
 static struct iovec fr[NF];
 static uint8_t *flat;
 
+uint32_t h_buf_flags(const MPT_STRUCT(buffer) *bp) { (void) bp; return 0; }
+void h_buf_unref(MPT_STRUCT(buffer) *bp) { (void) bp; }
+uintptr_t h_buf_addref(MPT_STRUCT(buffer) *bp) { (void) bp; return 0; }
+MPT_STRUCT(buffer) *h_buf_detach(MPT_STRUCT(buffer) *bp, size_t len) { return len <= bp->_size ? bp : 0; }
+static const MPT_INTERFACE_VPTR(buffer) h_vptr = { h_buf_flags, h_buf_unref, h_buf_addref, h_buf_detach };
+
 int is_tok(int c, void *arg)
 {
 	return c == *((uint8_t *) arg);
@@ -227,25 +233,32 @@ void harness(void)
 	}
 #elif FN == F_APPEND
 	{
-	MPT_STRUCT(array) a = MPT_ARRAY_INIT;
+	/* array over a static buffer object with room for everything: the property
+	 * concerns the walk over the fragments, not buffer growth (C04) */
+	static struct { MPT_STRUCT(buffer) buf; uint8_t data[NB + 4]; } sb = { { &h_vptr, 0, NB + 4, 0 }, { 0 } };
+	MPT_STRUCT(array) a;
 	MPT_STRUCT(message) m;
-	uint8_t pre[2];
 	size_t pl = V_IN_RANGE("prelen", 0, 2);
 	int r;
-	pre[0] = V_IN_U8("pre0"); pre[1] = V_IN_U8("pre1");
-	if (pl) V_ASSUME(mpt_array_append(&a, pl, pre) != 0);
+	a._buf = &sb.buf;
+	sb.data[0] = V_IN_U8("pre0"); sb.data[1] = V_IN_U8("pre1");
+	sb.buf._used = pl;
+	{
+	uint8_t pre0 = sb.data[0], pre1 = sb.data[1];
 	as_message(&m);
+#ifdef APPEND_NO_CONT
+	/* message without continuation fragments */
+	m.used = n; m.base = flat; m.clen = 0; m.cont = 0;
+#endif
 	r = mpt_message_append(&a, &m);
-	V_ASSERT(r == 0, "append succeeds (allocation never fails)");
-	V_ASSERT((a._buf ? a._buf->_used : 0) == pl + n, "array grows by the message length");
-	if (a._buf) {
-		const uint8_t *c = (const uint8_t *) (a._buf + 1);
-		for (i = 0; i < NB + 2; i++) {
-			if (i < pl) V_ASSERT(c[i] == pre[i], "previous array content kept");
-			else if (i < pl + n) V_ASSERT(c[i] == b[i - pl], "appended bytes = concatenation of the fragments");
-		}
+	V_ASSERT(r == 0, "append succeeds (space is available)");
+	V_ASSERT(a._buf == &sb.buf, "buffer not replaced");
+	V_ASSERT(sb.buf._used == pl + n, "array grows by the message length");
+	for (i = 0; i < NB + 2; i++) {
+		if (i < pl) V_ASSERT(sb.data[i] == (i ? pre1 : pre0), "previous array content kept");
+		else if (i < pl + n) V_ASSERT(sb.data[i] == b[i - pl], "appended bytes = concatenation of the fragments");
 	}
-	mpt_array_clone(&a, 0);
+	}
 	}
 #elif FN == F_GET
 	{
